@@ -1,182 +1,95 @@
-import re
-# ---- C14: all profile-group shapes (1..3 terms, every negation pattern), up to 2 groups
-p = '/verif/harness/src/props/c14.rs'
+p = '/verif/harness/src/props/c15_rows.rs'
 s = open(p).read()
-s = s.replace('const PROFS: [&[&[&str]]; 4] = [&[], &[&["x"]], &[&["!x", "y"]], &[&["x"], &["!y", "z"]]];\n',
-'''/// every group shape: 1..3 terms (names x, y, z in that order), every negation pattern -> 14 shapes;
-/// profile lists: none, one group (14), two groups (first from 14, second from 4 representative shapes)
-fn group_shapes() -> Vec<Vec<String>> {
-    let names = ["x", "y", "z"];
-    let mut out = vec![];
-    for n in 1..=3usize {
-        for mask in 0..(1u32 << n) {
-            out.push((0..n).map(|i| if mask & (1 << i) != 0 { format!("!{}", names[i]) } else { names[i].to_string() }).collect());
-        }
-    }
-    out
-}
-fn profs() -> Vec<Vec<Vec<String>>> {
-    let g = group_shapes();
-    let mut out: Vec<Vec<Vec<String>>> = vec![vec![]];
-    for a in &g {
-        out.push(vec![a.clone()]);
-    }
-    for a in &g {
-        for b in [&g[0], &g[1], &g[3], &g[12]] {
-            out.push(vec![a.clone(), b.clone()]);
-        }
-    }
-    out
-}
-''')
-s = s.replace('[NAMES14.len(), QUALS.len(), VERSIONS.len(), ARCHS14.len(), PROFS.len()]', '[NAMES14.len(), QUALS.len(), VERSIONS.len(), ARCHS14.len(), profs().len()]')
-s = s.replace('''    r.profiles = PROFS[v[4]]
-        .iter()
-        .map(|g| g.iter().map(|t| BuildProfile::from_str(t).unwrap()).collect())
-        .collect();''', '''    r.profiles = profs()[v[4]]
-        .iter()
-        .map(|g| g.iter().map(|t| BuildProfile::from_str(t).unwrap()).collect())
-        .collect();''')
-# subset indices for profiles: pick later-negated and 3-term shapes
-s = s.replace('''        [0, 0, 0, 0, 1],
-        [0, 0, 0, 0, 2],
-        [0, 0, 0, 0, 3],
-        [1, 1, 1, 3, 3],
-        [1, 1, 2, 5, 2],''', '''        [0, 0, 0, 0, 1],
-        [0, 0, 0, 0, 5],
-        [0, 0, 0, 0, 14],
-        [1, 1, 1, 3, 20],
-        [1, 1, 2, 5, 9],''')
-s = s.replace('x 4 profile-group shapes (720 values)', 'x 71 profile lists (no group; every one-group shape of 1-3 terms with every negation pattern; two groups) (5112 values)')
+s = s.replace('values = [date("2024-03-09T10:11:12+00:00"), date("2025-12-31T23:59:59+00:00")],', 'values = [date("2024-03-09T10:11:12+00:00"), date("2025-12-31T23:59:59+00:00"), date("2023-12-02T08:19:33+02:00"), date("2024-06-30T23:30:00-05:30")],')
+s = s.replace('values = [date("2024-03-16T10:11:12+00:00"), date("2026-01-07T23:59:59+00:00")],', 'values = [date("2024-03-16T10:11:12+00:00"), date("2026-01-07T23:59:59+00:00"), date("2023-12-09T08:19:33+02:00"), date("2024-07-07T23:30:00-05:30")],')
 open(p, 'w').write(s)
 
-# ---- C08: more canonical values
-p = '/verif/harness/src/props/c08.rs'
+# ---- C16: prior contents without a final newline, holding only the later-declared half of the present fields
+p = '/verif/harness/src/props/c16.rs'
 s = open(p).read()
-s = s.replace('pub const VALUES8: [&str; 13] = ["", "v", "v w  ", "é", "a:b", "a #b", ":x", "#x", "v\\nw", "\\nv", "\\nv\\nw", "v\\n.\\nw", "v\\nw:x"];',
- 'pub const VALUES8: [&str; 16] = ["", "v", "v w  ", "é", "a:b", "a #b", ":x", "#x", "v\\nw", "\\nv", "\\nv\\nw", "v\\n.\\nw", "v\\nw:x", "v  \\nw", "v\\nw\\t", "é\\u{3000}\\nw  \\nx"];')
-s = s.replace('3 names x 13 canonical values', '3 names x 16 canonical values')
-open(p, 'w').write(s)
-
-# ---- C12: alternatives on the SAME package
-p = '/verif/harness/src/props/c12.rs'
-s = open(p).read()
-s = s.replace('''    /// AND/OR nesting: per entry, per alternative: 0 satisfied, 1 version mismatch, 2 absent
-    Nest { entries: Vec<Vec<u8>> },''', '''    /// AND/OR nesting: per entry, per alternative: 0 satisfied, 1 version mismatch, 2 absent
-    Nest { entries: Vec<Vec<u8>> },
-    /// one entry whose alternatives all name the SAME package: (operator index, required version index) each;
-    /// installed version index (POOL.len() = absent); then a second entry on another, installed package
-    SamePkg { alts: Vec<(usize, usize)>, inst: usize },''')
-s = s.replace('''fn check_nest(entries: &[Vec<u8>]) -> Vec<Viol> {''', '''const SAME_REQ: [usize; 3] = [0, 2, 4];
-fn check_same(alts: &[(usize, usize)], inst: usize) -> Vec<Viol> {
-    let mut out = vec![];
-    let installed: Option<Version> = POOL.get(inst).map(|v| v.parse().unwrap());
-    let inst_idx = if inst < POOL.len() { Some(inst) } else { None };
-    let mut map: HashMap<String, Version> = HashMap::new();
-    if let Some(v) = &installed {
-        map.insert("pkg".into(), v.clone());
-    }
-    map.insert("other".into(), "1".parse().unwrap());
-    let text = format!(
-        "{}, other",
-        alts.iter().map(|(op, req)| if *op == 0 { "pkg".to_string() } else { format!("pkg ({} {})", OPS12[*op], POOL[*req]) }).collect::<Vec<_>>().join(" | ")
-    );
-    let want = alts.iter().any(|(op, req)| reference_cell(*op, *req, inst_idx));
-    let closure = |name: &str| -> Option<Version> { map.get(name).cloned() };
-    let got_ll = ll::Relations::from_str(&text).unwrap().satisfied_by(closure);
-    let got_ly = ly::Relations::from_str(&text).unwrap().satisfied_by(closure);
-    if got_ll != want {
-        out.push(viol("lossless-same-package-alternatives", format!("field {:?} with pkg at {:?}: lossless says {}, expected {}", text, POOL.get(inst), got_ll, want)));
-    }
-    if got_ly != want {
-        out.push(viol("lossy-same-package-alternatives", format!("field {:?} with pkg at {:?}: lossy says {}, expected {}", text, POOL.get(inst), got_ly, want)));
-    }
-    out
-}
-
-fn check_nest(entries: &[Vec<u8>]) -> Vec<Viol> {''')
-s = s.replace('''    fn n_shards(&self, t: Tier) -> usize {
-        1 + 1 + t.pick(3, 4)
-    }''', '''    fn n_shards(&self, t: Tier) -> usize {
-        1 + 1 + t.pick(3, 4) + 1
-    }''')
-s = s.replace('''            k => {
-                let entries = k - 1;''', '''            k if k == 2 + t.pick(3, 4) => {
-                // alternatives on the same package: 1..3 alternatives x (6 operators x 3 required versions) x installed
-                let per = 6 * SAME_REQ.len();
-                for n_alt in 1..=3usize {
-                    let mut m = vec![per; n_alt];
-                    m.push(SAME_REQ.len() + 2);
-                    product(&m, &mut |v| {
-                        let alts: Vec<(usize, usize)> = v[..n_alt].iter().map(|x| (x / SAME_REQ.len(), SAME_REQ[x % SAME_REQ.len()])).collect();
-                        if alts.iter().any(|(op, req)| *op == 0 && *req != SAME_REQ[0]) {
-                            return; // required version irrelevant for an unversioned alternative
-                        }
-                        let iv = v[n_alt];
-                        let inst = match iv {
-                            0 => 1,  // between the required versions
-                            1 => 2,
-                            2 => 3,
-                            3 => 5,
-                            _ => POOL.len(),
-                        };
-                        f(&C12Case::SamePkg { alts, inst });
-                    });
-                }
+s = s.replace('''        _ => {
+            for f in sp.fields.iter() {
+                prior.push_str(&render_para(&[(f.name, other(f))]));
             }
-            k => {
-                let entries = k - 1;''')
-s = s.replace('''            C12Case::Nest { entries } => check_nest(entries),
-        });''', '''            C12Case::Nest { entries } => check_nest(entries),
-            C12Case::SamePkg { alts, inst } => check_same(alts, *inst),
-        });''')
-s = s.replace('''                        C12Case::Nest { .. } => "nest-ok",''', '''                        C12Case::Nest { .. } => "nest-ok",
-                        C12Case::SamePkg { .. } => "same-package-ok",''')
-s = s.replace('''            C12Case::Cell { .. } => vec![],''', '''            C12Case::Cell { .. } => vec![],
-            C12Case::SamePkg { alts, inst } => {
-                let mut out = vec![];
-                for i in 0..alts.len() {
-                    if alts.len() > 1 {
-                        let mut a = alts.clone();
-                        a.remove(i);
-                        out.push(C12Case::SamePkg { alts: a, inst: *inst });
-                    }
-                }
-                out
-            }''')
-s = s.replace('plus the empty field; all cases distinct', 'plus the empty field; (3) every entry of 1-3 alternatives that all name the SAME package (6 operators x 3 required versions each) x 5 installed states, followed by a second satisfied entry; all cases distinct')
+        }
+    }
+    let be = if lossless''', '''        3 => {
+            for f in sp.fields.iter() {
+                prior.push_str(&render_para(&[(f.name, other(f))]));
+            }
+        }
+        _ => {
+            // only the later-declared half of the present fields (other values), after a foreign field and a comment,
+            // and NO final newline: the earlier-declared fields get appended, then the existing ones are rewritten
+            prior.push_str("X-Foreign-First: keep 1\\n");
+            foreign.push("X-Foreign-First: keep 1".into());
+            if lossless {
+                prior.push_str("# a comment\\n");
+                foreign.push("# a comment".into());
+            }
+            let half = fs.len() / 2;
+            for (f, _) in &fs[half..] {
+                prior.push_str(&render_para(&[(f.name, other(f))]));
+            }
+            if prior.ends_with('\\n') {
+                prior.pop();
+            }
+        }
+    }
+    let be = if lossless''')
+s = s.replace('for kind in 0..4 {', 'for kind in 0..5 {')
+s = s.replace('''    /// foreign fields (and comments on the lossless back-end), 3 every own optional field present), back-end''', '''    /// foreign fields (and comments on the lossless back-end), 3 every own optional field present, 4 only the later-declared
+    /// half of the present fields after a foreign field, without final newline), back-end''')
+s = s.replace('update_paragraph onto 4 prior contents x 2 back-ends', 'update_paragraph onto 5 prior contents x 2 back-ends')
 open(p, 'w').write(s)
 
-# ---- C02: grammar-position token tier for codecs
+# ---- C02: near-valid values in typed documents
 p = '/verif/harness/src/props/c02.rs'
 s = open(p).read()
-s = s.replace('''    fn n_shards(&self, _t: Tier) -> usize {
-        entry_points().len() * 4
-    }''', '''    fn n_shards(&self, _t: Tier) -> usize {
-        entry_points().len() * 5
-    }''')
-s = s.replace('let ep = &eps[shard / 4];', 'let ep = &eps[shard / 5];')
-s = s.replace('match shard % 4 {', 'match shard % 5 {')
-s = s.replace('''            2 => {
-                for s in pumped(ep.group, t) {''', '''            4 => {
-                // grammar-position tier: few multi-character tokens, long enough sequences to fill every position
-                // of the longest value grammar (VCS location: url, subpath, branch in either order; records of 3-5 items)
-                if ep.group == Group::Codec {
-                    let toks = ["u", "https://host/r.git", " [", "]", " -b ", "m", "src/packaging/debian", " "];
-                    let sp = SeqSpace::new(&toks, t.pick(6, 7), 0);
-                    sp.explore(0, &mut |s, idx| {
-                        if idx.len() < 4 {
-                            return;
-                        }
-                        case.s.clear();
-                        case.s.push_str(s);
-                        case.fresh = false;
-                        f(&case);
-                    });
+s = s.replace('''    let menus: Vec<usize> = fields.iter().map(|_| 2 + GARBAGE.len()).collect();''', '''    // near-valid values: pieces of the field's own valid values (first / last item, value cut short, value with a tail)
+    let near: Vec<Vec<String>> = fields
+        .iter()
+        .map(|(_, fs)| {
+            let mut out: Vec<String> = vec![];
+            for v in fs.valid.iter().take(2) {
+                let parts: Vec<&str> = v.split(|c: char| c == ',' || c == ' ' || c == ':' || c == '\\n').filter(|x| !x.is_empty()).collect();
+                if let Some(first) = parts.first() {
+                    out.push(first.to_string());
                 }
+                if let Some(last) = parts.last() {
+                    out.push(last.to_string());
+                }
+                let mut cut = v.to_string();
+                cut.pop();
+                out.push(cut);
+                out.push(format!("{},", v));
             }
-            2 => {
-                for s in pumped(ep.group, t) {''')
-s = s.replace('(4) for typed documents', '(4) for single-value codecs every sequence of 4-6 (thorough 7) tokens of the longest value grammar (url, " [", subpath, "]", " -b ", branch, blank); (5) for typed documents')
+            out.sort();
+            out.dedup();
+            out.retain(|x| !fs.valid.contains(&x.as_str()) && !x.is_empty());
+            out.truncate(6);
+            out
+        })
+        .collect();
+    let menus: Vec<usize> = fields.iter().enumerate().map(|(i, _)| 2 + GARBAGE.len() + near[i].len()).collect();''')
+s = s.replace('''            for ((fpi, fs), choice) in fields.iter().zip(v.iter()) {
+                if *fpi != pi {
+                    continue;
+                }
+                let val: Option<&str> = match *choice {
+                    0 => Some(fs.valid[0]),
+                    1 => None,
+                    g => Some(GARBAGE[g - 2]),
+                };''', '''            for (fidx, ((fpi, fs), choice)) in fields.iter().zip(v.iter()).enumerate() {
+                if *fpi != pi {
+                    continue;
+                }
+                let val: Option<&str> = match *choice {
+                    0 => Some(fs.valid[0]),
+                    1 => None,
+                    g if g - 2 < GARBAGE.len() => Some(GARBAGE[g - 2]),
+                    g => Some(near[fidx][g - 2 - GARBAGE.len()].as_str()),
+                };''')
+s = s.replace('fields absent or replaced by one of 7 garbage values', 'fields absent or replaced by one of 7 garbage values or up to 6 near-valid values (pieces of the valid values of the field: first / last item, value cut short, value with a trailing comma)')
 open(p, 'w').write(s)
-print("ok")
+print('ok')
